@@ -342,6 +342,25 @@ def check(spec, ctx):
         if abs(c12 - exp) > 1e-9:
             ctx.fail(f"(second buffers) affinity {c12} differs from IoU {exp} of the buffered geometries", spec, c12, exp, kind="iou_of_buffered")
 
+    # geometries derived from the two that were just used (pydantic models are mutable): a copy with other coordinates and the
+    # same object after its coordinates were re-assigned are judged by their CURRENT coordinates, like freshly built ones
+    try:
+        n1 = data.geometry_validate({"type": k1, "coordinates": shift_spec_time(k1, g1.coordinates, dt)}, mode="dict")
+        n2 = data.geometry_validate({"type": k2, "coordinates": shift_spec_time(k2, g2.coordinates, 2 * dt)}, mode="dict")
+    except ValueError:
+        return  # the moved line does not exist (two nearly equal times merged)
+    fresh = aff(n1, n2)
+    d1 = g1.model_copy(update={"coordinates": n1.coordinates})
+    d2 = g2.model_copy(update={"coordinates": n2.coordinates}, deep=True)
+    got = aff(d1, d2)
+    if got != fresh:
+        ctx.fail(f"affinity of copies derived (model_copy(update=coordinates)) from used geometries is {got}, freshly built geometries with the same coordinates give {fresh}", spec, got, fresh, kind="stale_derived")
+    g1.coordinates = n1.coordinates
+    g2.coordinates = n2.coordinates
+    got = aff(g1, g2)
+    if got != fresh:
+        ctx.fail(f"affinity after the coordinates of used geometries were re-assigned is {got}, freshly built geometries with the same coordinates give {fresh}", spec, got, fresh, kind="stale_after_assignment")
+
 
 SUBS = [
     Sub("affinity_laws", check, strategy=case, quick=8100, thorough=250000, min_nontrivial=0.15),
